@@ -2,24 +2,30 @@ package main
 
 import (
 	"fmt"
+	"io/ioutil"
 	"os"
 
-	"zmc/servermc"
+	"zmc/walmc"
+	"github.com/youzan/ZanRedisDB/wal"
 )
 
 func main() {
-	servermc.Silence()
-	n, err := servermc.Start(23000, 4, "")
-	if err != nil {
-		fmt.Println(err)
-		os.Exit(1)
+	wal.VerifSilence()
+	wal.SegmentSizeBytes = 1024
+	dir := "/dev/shm/zrverif/probe-wal/wal"
+	os.RemoveAll("/dev/shm/zrverif/probe-wal")
+	obs, recs, err := walmc.Execute(dir, []walmc.Op{{Kind: "save", N: 2, Size: 500}, {Kind: "save", N: 1, Size: 7}, {Kind: "commit"}}, false)
+	fmt.Println(len(obs), len(recs), err)
+	for _, o := range obs {
+		fmt.Println(o.Label, "durable", o.Durable, "issued", o.Issued)
+		for n, b := range o.Files {
+			fmt.Println("   ", n, len(b), "synced", o.Synced[n])
+		}
 	}
-	defer n.Stop()
-	c, _ := servermc.Dial(n.Port)
-	pool := servermc.KeyPool(4)
-	for _, cmd := range [][]string{{"set", pool[0], "a"}, {"get", pool[0]}, {"exists", pool[0], pool[1]}, {"get", pool[0]}, {"mget", pool[0], pool[1]}, {"get", pool[0]}, {"del", pool[0], pool[1]}, {"get", pool[0]},
-		{"plset", pool[0], "x", pool[1], "y"}, {"get", pool[0]}, {"get", pool[1]}, {"del", pool[0]}, {"get", pool[1]}, {"exists", pool[1]}, {"get", pool[1]}} {
-		r, err := c.Do(cmd...)
-		fmt.Println(cmd, "->", r, err)
+	fis, _ := ioutil.ReadDir(dir)
+	for _, fi := range fis {
+		fmt.Println(fi.Name(), fi.Size())
 	}
+	f, err, rep := walmc.Recover(dir)
+	fmt.Println(len(f.Ents), f.State, err, rep)
 }
